@@ -40,6 +40,22 @@ CLAIMED['C14'] = (
     TRUST + '; A2: exact polynomial-product back-end (models/fft_ideal.cpp) where TLWE operations multiply polynomials; asm2c',
     'bounded symbolic execution (clang IR + inline asm -> C -> CBMC) + SAT/SMT portfolio', 'DESIGN.md section 4, C14')
 
+CLAIMED['C08'] = (
+    'Key switching decided in ciphertext coordinates on the real lweKeySwitch/lweKeySwitchTranslate_fromArray/lweSubTo code: with every '
+    'input mask coefficient (all 2^32 values) and every key-switching row symbolic, the output equals (0,b) minus exactly the rows '
+    'selected by the base-2^basebit digits of a_i + 2^(31-t*basebit) (64-bit oracle), row h=0 never read; on mask-free gadget rows the '
+    'truncation is round-to-nearest |a - a~| <= 2^(31-t*basebit) for all 2^32 a; 3-level index of the contiguous array; key generation '
+    'under an arbitrary-valued RNG stub: one recentred gaussian of the configured sigma and fresh full-range masks per row. Layout grid '
+    'incl. the default (8,2); dimensions <= 3; <= 32 rows per query (quick).',
+    TRUST + '; M-RNG stubs; FP ops uninterpreted in the key-generation query; the phase statement is the composition with C14 phase linearity (paper algebra, DESIGN.md section 4)',
+    'bounded symbolic execution (clang IR -> C -> CBMC) + SAT/SMT portfolio', 'DESIGN.md section 4, C08')
+CLAIMED['C19'] = (
+    'lambda is one symbolic int32 (all 2^32 requests): 1..80 returns the documented 80-bit set, 81..128 the 128-bit set whose n and noise '
+    'levels are re-read from README.md on each run, never the weaker set; every other lambda terminates (normal return unreachable) and '
+    'in-range requests never terminate; derived fields through the real constructors; structural constraints; >= 12 sigma decoding margin '
+    'from the CGGI19 noise formulas evaluated on the returned fields.',
+    TRUST + '; noise formulas are the CGGI19 ones written in the harness', 'bounded symbolic execution (clang IR -> C -> CBMC) + SAT/SMT portfolio', 'DESIGN.md section 4, C19')
+
 NOT_APPLICABLE = {
     'C02': 'statistical claim (mean/stdev/tail of the phase error of the real FFT pipeline at N=1024): a solver decides for-all/exists and the for-all version is false; its deterministic mechanisms are decided under C12, C08, C07, C19, C01',
     'C10': 'double-precision rounding error of 2048-point FFTs, three of five back-ends being hand-written AVX/FMA assembly or FFTW: bit-precise FP is out of solver reach beyond N~2 and a sound real-arithmetic over-approximation exceeds the stated 2 units',
